@@ -5,7 +5,7 @@ import ast
 import builtins
 import os
 
-TRANSFORMS = ["unparse_roundtrip", "rename_locals", "swap_if_else", "insert_pass", "return_temp", "elif_to_nested", "insert_logging", "len_tests", "swap_independent"]
+TRANSFORMS = ["unparse_roundtrip", "rename_locals", "swap_if_else", "insert_pass", "return_temp", "elif_to_nested", "insert_logging", "len_tests", "swap_independent", "combo"]
 
 
 def transforms_for(prop: str):
@@ -53,6 +53,15 @@ def apply(name: str, root: str, prop: str) -> bool:
             _LenTests().visit(tree)
         elif name == "swap_independent":
             _SwapIndependent().visit(tree)
+        elif name == "combo":
+            # everything at once: the transforms must also compose
+            _SwapIf().visit(tree)
+            _ElifNested().visit(tree)
+            _ReturnTemp().visit(tree)
+            _LenTests().visit(tree)
+            _SwapIndependent().visit(tree)
+            _InsertLogging().visit(tree)
+            _rename_locals(tree)
         else:
             return False
         ast.fix_missing_locations(tree)
